@@ -214,7 +214,7 @@ func unmarshal(node parse.Node, ti *typeInfo, fi *fieldInfo, v reflect.Value) er
 	if fi.Opts.Param != "" {
 		s = strings.TrimPrefix(s, fi.Opts.Param+"=")
 	}
-	if fi.Opts.Length > 0 {
+	if fi.Opts.HasLength {
 		if fi.Opts.Inline {
 			if len(s) < fi.Opts.Length {
 				return newUnmarshalError(node, ti, fi, "length mismatch")
